@@ -158,7 +158,8 @@ Fixpoint dedup_paths (l : list path) : list path :=
   | x :: r => if existsb (path_eqb x) r then dedup_paths r else x :: dedup_paths r
   end.
 
-(* the list of databag writes of View.Set, or the error *)
+(* the list of databag writes of View.Set, or the error. The Go code prunes the suffixes in map-iteration order; for the
+   suffix sets admitted here (no non-empty suffix a prefix of another) the model fixes one order: reverse namespace order *)
 Definition set_writes (rules : list rule) (req : path) (v : tree) : rres * list (path * tree) :=
   match matches writeable rules req with
   | [] => (RNotFound, [])
@@ -170,7 +171,7 @@ Definition set_writes (rules : list rule) (req : path) (v : tree) : rres * list 
           let sorted := sort_by fst lms in
           let vals := map (fun m => (fst m, value_at (snd m) v)) sorted in
           if existsb (fun pv => match snd pv with None => true | Some _ => false end) vals then (RBadRequest, [])
-          else if negb (unused_check v (dedup_paths (map snd lms))) then (RBadRequest, [])
+          else if negb (unused_check v (rev (dedup_paths (map snd (sort_by snd lms))))) then (RBadRequest, [])
           else (ROk, map (fun pv => (fst pv, match snd pv with Some x => x | None => Null end)) vals)
       end
   end.
